@@ -26,7 +26,8 @@ ASSUMPTIONS = [
     "scientific notation and names absent from the variable list are not generated",
 ]
 
-VARS = ["a", "b", "c", "A[T.x]", "a:b", "c d"]
+# (includes quoted names that look like numbers: `2019`, `1e3`)
+VARS = ["a", "2019", "b", "A[T.x]", "a:b", "c d", "1e3", "c"]
 NUMS = ["0", "1", "2", "3", "5", ".5", "2.5", "10", "0.25", "2.", "7"]
 
 
@@ -220,7 +221,7 @@ def check_nonlinear(case) -> Outcome:
     s = case["s"]
     out.label("nonlinear")
     try:
-        lc = LinearConstraints.from_spec(s, variable_names=VARS[:3])
+        lc = LinearConstraints.from_spec(s, variable_names=["a", "b", "c"])
     except Exception:
         return out
     out.fail("nonlinear-accepted", f"{s!r} compiled to A={np.asarray(lc.constraint_matrix).tolist()} b={np.asarray(lc.constraint_values).tolist()}", kind=case["kind"])
@@ -306,7 +307,7 @@ class _Builder:
 def gen_spec():
     @st.composite
     def strat(draw):
-        nv = draw(st.integers(1, 6))
+        nv = draw(st.integers(1, 8))
         n = draw(st.integers(1, 3))
         cons = []
         for _ in range(n):
